@@ -1,43 +1,114 @@
-//! Witness search for C01 / C02 / C15 at the deduper level: feed the REAL FileDeduper chunk sequences with repeats (within the file,
-//! across xorb cuts, against a remote store) through a truthful mock store that records every registered xorb, finalize, resolve
-//! the remaining data through the REAL DataAggregator::finalize, and check that
-//!   * the segment list denotes exactly the fed chunk-hash sequence (C01), segment byte counts are the sums of chunk lengths (C02),
+//! Witness search for C01 / C02 / C05 (deduper side) / C15 at the deduper level: feed the REAL FileDeduper chunk sequences with
+//! repeats (within the file, across xorb cuts, against a remote store, against shards that arrive through the global-dedup restart
+//! path) through a truthful mock store that records every registered xorb, finalize, merge the files' remaining data with the REAL
+//! DataAggregator::merge_in / finalize the way the upload session does, and check that
+//!   * every file's segment list denotes exactly the fed chunk-hash sequence (C01), segment byte counts are the sums of the chunk
+//!     lengths, the verification entries are the keyed range hashes of the denoted chunks, the file hash is the salted aggregate of
+//!     the (chunk hash, length) list computed independently, the header flags / entry count fit, every xorb's name is the aggregate
+//!     hash recomputed from its chunks and its chunk table fits its data (C02),
 //!   * every xorb is non-empty and within MAX_XORB_CHUNKS / MAX_XORB_BYTES, no segment keeps the zero hash (C15).
-//! Prints `WITNESS ...` and exits 1 on the first violation.
-use std::collections::HashMap;
+//! The limits are read once per process: the program re-executes itself for MAX_XORB_CHUNKS = default / 1 / 2 / 8 (+ 1000-byte
+//! xorbs) / 5 (+ 4096-byte xorbs).  Prints `WITNESS ...` and exits 1 on the first violation.
+//! Opt-in probe (out of the stated domain): VERIF_C01_OVERSIZE_CHUNK=1 feeds one chunk longer than MAX_XORB_BYTES.
+use std::collections::{HashMap, VecDeque};
+use std::panic::{catch_unwind, AssertUnwindSafe};
 use std::sync::{Arc, Mutex};
 
 use deduplication::constants::{MAX_XORB_BYTES, MAX_XORB_CHUNKS};
-use deduplication::{Chunk, DeduplicationDataInterface, FileDeduper, RawXorbData};
-use mdb_shard::file_structs::FileDataSequenceEntry;
-use merklehash::{compute_data_hash, MerkleHash};
+use deduplication::{Chunk, DataAggregator, DeduplicationDataInterface, FileDeduper, RawXorbData};
+use mdb_shard::file_structs::{FileDataSequenceEntry, FileMetadataExt, MDBFileInfo};
+use merklehash::{compute_data_hash, compute_internal_node_hash, MerkleHash};
+use rand::rngs::StdRng;
+use rand::{Rng, SeedableRng};
+
+type HL = (MerkleHash, usize);
+
+/// (MAX_XORB_CHUNKS, MAX_XORB_BYTES) overrides; None = default
+const CONFIGS: [(Option<usize>, Option<usize>); 5] = [(None, None), (Some(1), None), (Some(2), None), (Some(8), Some(1000)), (Some(5), Some(4096))];
+
+/// the published key of the per-segment verification hash (copied, not imported)
+const VERIFICATION_KEY: [u8; 32] = [
+    127, 24, 87, 214, 206, 86, 237, 102, 18, 127, 249, 19, 231, 165, 195, 243, 164, 205, 38, 213, 181, 219, 73, 230, 65, 36, 152, 127, 40, 251, 148, 195,
+];
+
+/// The published aggregate-hash construction (same text as in c07_xorb): level by level, cut a group after child i when it is the
+/// last child, or the group already has >= 2 earlier children and word 3 of child i's hash is 0 mod 4, or it has 8 earlier children.
+fn reference_root(list: &[HL]) -> MerkleHash {
+    if list.is_empty() {
+        return MerkleHash::default();
+    }
+    let mut level: Vec<HL> = list.to_vec();
+    while level.len() > 1 {
+        let mut next = vec![];
+        let mut start = 0;
+        for i in 0..level.len() {
+            let earlier = i - start;
+            if (earlier >= 2 && level[i].0[3] % 4 == 0) || earlier >= 8 || i + 1 == level.len() {
+                let mut text = String::new();
+                let mut total = 0;
+                for (h, n) in &level[start..=i] {
+                    text.push_str(&format!("{:016x}{:016x}{:016x}{:016x} : {}\n", h[0], h[1], h[2], h[3], n));
+                    total += n;
+                }
+                next.push((compute_internal_node_hash(text.as_bytes()), total));
+                start = i + 1;
+            }
+        }
+        level = next;
+    }
+    level[0].0
+}
 
 #[derive(Default)]
 struct Store {
-    xorbs: HashMap<MerkleHash, Vec<(MerkleHash, usize)>>,
+    xorbs: HashMap<MerkleHash, Vec<HL>>,
     first: HashMap<MerkleHash, (MerkleHash, usize)>, // chunk hash -> (xorb, index), first occurrence
+    last: HashMap<MerkleHash, (MerkleHash, usize)>,  // ... latest occurrence
+    data: HashMap<MerkleHash, Arc<[u8]>>,            // every chunk of the scenario, by hash
     limit_violation: Option<String>,
+    registered: Vec<MerkleHash>,                     // xorbs handed over through register_new_xorb, in order
+    late: VecDeque<(MerkleHash, Vec<HL>)>,           // xorbs of shards that arrive on a global-dedup restart, one per restart
+    caps: Vec<usize>,                                // answer lengths are capped by caps[call % len] (truthful but not maximal)
+    calls: usize,
+    prefer_last: bool,
+    queries: usize,
+    restarts: usize,
 }
 impl Store {
-    fn add(&mut self, x: MerkleHash, chunks: Vec<(MerkleHash, usize)>) {
+    fn add(&mut self, x: MerkleHash, chunks: Vec<HL>) {
         for (i, (h, _)) in chunks.iter().enumerate() {
             self.first.entry(*h).or_insert((x, i));
+            self.last.insert(*h, (x, i));
         }
         self.xorbs.insert(x, chunks);
     }
 }
-struct Mock(Arc<Mutex<Store>>);
+
+struct Mock {
+    store: Arc<Mutex<Store>>,
+    outstanding: usize,
+    restart: bool, // like the session with GlobalDedupPolicy::Always: complete_global_dedup_queries() == "some query was registered"
+}
 
 #[async_trait::async_trait]
 impl DeduplicationDataInterface for Mock {
     type ErrorType = String;
     async fn chunk_hash_dedup_query(&self, q: &[MerkleHash]) -> Result<Option<(usize, FileDataSequenceEntry)>, String> {
-        let s = self.0.lock().unwrap();
-        if let Some((x, i)) = s.first.get(&q[0]) {
+        let mut s = self.store.lock().unwrap();
+        if q.is_empty() {
+            if s.limit_violation.is_none() {
+                s.limit_violation = Some("the store was queried with an empty hash list".into());
+            }
+            return Ok(None);
+        }
+        let cap = if s.caps.is_empty() { usize::MAX } else { s.caps[s.calls % s.caps.len()] }.max(1);
+        s.calls += 1;
+        let hit = if s.prefer_last { s.last.get(&q[0]) } else { s.first.get(&q[0]) };
+        if let Some((x, i)) = hit {
             let list = &s.xorbs[x];
             let mut n = 0;
             let mut bytes = 0;
-            while n < q.len() && i + n < list.len() && list[i + n].0 == q[n] {
+            while n < q.len() && n < cap && i + n < list.len() && list[i + n].0 == q[n] {
                 bytes += list[i + n].1;
                 n += 1;
             }
@@ -46,25 +117,67 @@ impl DeduplicationDataInterface for Mock {
         Ok(None)
     }
     async fn register_global_dedup_query(&mut self, _h: MerkleHash) -> Result<(), String> {
+        self.outstanding += 1;
+        self.store.lock().unwrap().queries += 1;
         Ok(())
     }
     async fn complete_global_dedup_queries(&mut self) -> Result<bool, String> {
-        Ok(false)
+        if !self.restart || self.outstanding == 0 {
+            self.outstanding = 0;
+            return Ok(false);
+        }
+        self.outstanding = 0;
+        let mut s = self.store.lock().unwrap();
+        s.restarts += 1;
+        if let Some((x, list)) = s.late.pop_front() {
+            s.add(x, list);
+        }
+        Ok(true)
     }
     async fn register_new_xorb(&mut self, x: RawXorbData) -> Result<(), String> {
-        let mut s = self.0.lock().unwrap();
-        check_xorb(&x, &mut s.limit_violation);
+        let mut s = self.store.lock().unwrap();
+        check_xorb(&x, &mut s, true);
         let list: Vec<_> = x.cas_info.chunks.iter().map(|c| (c.chunk_hash, c.unpacked_segment_bytes as usize)).collect();
+        s.registered.push(x.hash());
         s.add(x.hash(), list);
         Ok(())
     }
 }
 
-fn check_xorb(x: &RawXorbData, out: &mut Option<String>) {
+/// C15 (non-empty, limits) and C02 (name == aggregate recomputed from the chunks; chunk table fits the data)
+fn check_xorb(x: &RawXorbData, s: &mut Store, must_be_nonempty: bool) {
+    if s.limit_violation.is_some() {
+        return;
+    }
     let n = x.cas_info.chunks.len();
     let bytes: usize = x.data.iter().map(|d| d.len()).sum();
-    if out.is_none() && (n == 0 || n > *MAX_XORB_CHUNKS || bytes > *MAX_XORB_BYTES || x.hash() == MerkleHash::default()) {
-        *out = Some(format!("a xorb with {n} chunks / {bytes} bytes was handed to the store (limits {} chunks, {} bytes)", *MAX_XORB_CHUNKS, *MAX_XORB_BYTES));
+    if (n == 0 && must_be_nonempty) || n > *MAX_XORB_CHUNKS || bytes > *MAX_XORB_BYTES || (n > 0 && x.hash() == MerkleHash::default()) {
+        s.limit_violation = Some(format!("a xorb with {n} chunks / {bytes} bytes was handed to the store (limits {} chunks, {} bytes)", *MAX_XORB_CHUNKS, *MAX_XORB_BYTES));
+        return;
+    }
+    let list: Vec<HL> = x.cas_info.chunks.iter().map(|c| (c.chunk_hash, c.unpacked_segment_bytes as usize)).collect();
+    let want = reference_root(&list);
+    if x.hash() != want {
+        s.limit_violation = Some(format!("a xorb of {n} chunks is named {} but the aggregate hash recomputed from its (chunk hash, length) list is {}", x.hash().hex(), want.hex()));
+        return;
+    }
+    let m = &x.cas_info.metadata;
+    if m.num_entries as usize != n || m.num_bytes_in_cas as usize != bytes || x.data.len() != n || x.num_bytes() != bytes {
+        s.limit_violation = Some(format!("a xorb with {n} chunk entries / {} data pieces / {bytes} bytes has a header saying {} entries, {} bytes", x.data.len(), m.num_entries, m.num_bytes_in_cas));
+        return;
+    }
+    let mut pos = 0usize;
+    for (i, c) in x.cas_info.chunks.iter().enumerate() {
+        let d = &x.data[i];
+        let known = s.data.get(&c.chunk_hash);
+        if c.chunk_byte_range_start as usize != pos || d.len() != c.unpacked_segment_bytes as usize || known.map(|k| k[..] != d[..]).unwrap_or(true) {
+            s.limit_violation = Some(format!(
+                "xorb of {n} chunks: chunk entry {i} (start {}, {} bytes) does not fit its data piece ({} bytes at offset {pos}{})",
+                c.chunk_byte_range_start, c.unpacked_segment_bytes, d.len(), if known.is_none() { "; the hash is of no chunk that was fed" } else { "" }
+            ));
+            return;
+        }
+        pos += d.len();
     }
 }
 
@@ -74,152 +187,750 @@ fn chunk(tag: u64, len: usize) -> Chunk {
     Chunk { hash: compute_data_hash(&d), data: Arc::from(d) }
 }
 
-fn run(name: &str, file: &[Chunk], blocks: &[usize], remote: &[Vec<Chunk>]) -> Option<String> {
+fn panic_msg(e: Box<dyn std::any::Any + Send>) -> String {
+    e.downcast_ref::<String>().cloned().or_else(|| e.downcast_ref::<&str>().map(|s| s.to_string())).unwrap_or_default()
+}
+
+#[derive(Clone, Copy, PartialEq, Debug)]
+enum Merge {
+    Separate,       // every file's remainder is finalized on its own
+    Session,        // merged into an (initially default) aggregator as each file completes, cut-or-merge like the upload session
+    SessionReverse, // all files cleaned first, remainders merged in reverse order
+    IntoFirst,      // the first file's aggregator is the accumulator
+}
+
+#[derive(Clone)]
+struct Scenario {
+    name: String,
+    files: Vec<Vec<Chunk>>,
+    remote: Vec<Vec<Chunk>>,
+    late: Vec<Vec<Chunk>>,
+    blocks: Vec<usize>, // block sizes, cycled; 0 = a call with an empty slice
+    caps: Vec<usize>,
+    prefer_last: bool,
+    restart: bool,
+    salt: [u8; 32],
+    ext: bool,
+    merge: Merge,
+}
+impl Scenario {
+    fn simple(name: &str, file: Vec<Chunk>, remote: Vec<Vec<Chunk>>) -> Self {
+        Scenario { name: name.into(), files: vec![file], remote, late: vec![], blocks: vec![usize::MAX], caps: vec![], prefer_last: false, restart: false, salt: [7u8; 32], ext: false, merge: Merge::Separate }
+    }
+    fn describe(&self) -> String {
+        format!(
+            "{} [{} file(s) of {:?} chunks, fed in blocks {:?} (0 = empty call), store answers capped at {:?} chunks{}, global-dedup restarts {}, {} late xorb(s), merge mode {:?}, salt {:#x}.., metadata_ext {}]",
+            self.name, self.files.len(), self.files.iter().map(|f| f.len()).collect::<Vec<_>>(), self.blocks, self.caps,
+            if self.prefer_last { ", latest occurrence" } else { "" }, if self.restart { "on" } else { "off" }, self.late.len(), self.merge, self.salt[0], if self.ext { "Some" } else { "None" }
+        )
+    }
+}
+
+struct Tracked {
+    agg: DataAggregator,
+    ids: Vec<usize>,
+}
+
+#[derive(Default)]
+struct Coverage {
+    restarts: usize,
+    queries: usize,
+    merges: usize,
+    global_hits: usize,
+    withheld: usize,
+}
+
+fn run(sc: &Scenario, cov: &mut Coverage) -> Option<String> {
+    let name = sc.describe();
     let store = Arc::new(Mutex::new(Store::default()));
-    for (k, r) in remote.iter().enumerate() {
-        let x = compute_data_hash(format!("remote{k}").as_bytes());
-        store.lock().unwrap().add(x, r.iter().map(|c| (c.hash, c.data.len())).collect());
+    {
+        let mut s = store.lock().unwrap();
+        s.caps = sc.caps.clone();
+        s.prefer_last = sc.prefer_last;
+        for c in sc.files.iter().flatten().chain(sc.remote.iter().flatten()).chain(sc.late.iter().flatten()) {
+            s.data.insert(c.hash, c.data.clone());
+        }
+        for (k, r) in sc.remote.iter().enumerate() {
+            let x = compute_data_hash(format!("remote{k}").as_bytes());
+            s.add(x, r.iter().map(|c| (c.hash, c.data.len())).collect());
+        }
+        for (k, r) in sc.late.iter().enumerate() {
+            let x = compute_data_hash(format!("late{k}").as_bytes());
+            s.late.push_back((x, r.iter().map(|c| (c.hash, c.data.len())).collect()));
+        }
     }
     let rt = tokio::runtime::Builder::new_current_thread().build().unwrap();
-    let mut d = FileDeduper::new(Mock(store.clone()));
-    let mut pos = 0;
-    let mut k = 0;
-    while pos < file.len() {
-        let n = blocks[k % blocks.len()].max(1).min(file.len() - pos);
-        k += 1;
-        if let Err(e) = std::panic::catch_unwind(std::panic::AssertUnwindSafe(|| rt.block_on(d.process_chunks(&file[pos..pos + n])).unwrap())) {
-            let msg = e.downcast_ref::<String>().cloned().or_else(|| e.downcast_ref::<&str>().map(|s| s.to_string())).unwrap_or_default();
-            return Some(format!("{name}: process_chunks panicked: {msg}"));
+    let ext = sc.ext.then(|| FileMetadataExt::new(compute_data_hash(b"sha256 stand-in")));
+    let mut resolved: Vec<Option<MDBFileInfo>> = vec![None; sc.files.len()];
+    let mut file_hashes: Vec<MerkleHash> = vec![];
+    let mut acc: Option<Tracked> = match sc.merge {
+        Merge::Session | Merge::SessionReverse => {
+            let a = DataAggregator::default();
+            if !a.is_empty() || a.num_chunks() != 0 || a.num_bytes() != 0 {
+                return Some(format!("{name}: DataAggregator::default() is not empty"));
+            }
+            Some(Tracked { agg: a, ids: vec![] })
+        },
+        _ => None,
+    };
+    let mut waiting: Vec<Tracked> = vec![];
+
+    // finalize one aggregator: the xorb goes to the store, the file records are kept for the final check
+    let finalize = |t: Tracked, resolved: &mut Vec<Option<MDBFileInfo>>| -> Option<String> {
+        let want_chunks: Vec<HL> = t.agg.chunks.iter().map(|c| (c.hash, c.data.len())).collect();
+        let (xorb, files) = match catch_unwind(AssertUnwindSafe(|| t.agg.finalize())) {
+            Ok(r) => r,
+            Err(e) => return Some(format!("{name}: DataAggregator::finalize panicked (aggregator of {} chunks, files {:?}): {}", want_chunks.len(), t.ids, panic_msg(e))),
+        };
+        let mut s = store.lock().unwrap();
+        check_xorb(&xorb, &mut s, false);
+        let list: Vec<HL> = xorb.cas_info.chunks.iter().map(|c| (c.chunk_hash, c.unpacked_segment_bytes as usize)).collect();
+        if list != want_chunks {
+            return Some(format!("{name}: the xorb cut from an aggregator of {} chunks (files {:?}) holds {} chunks / not the aggregator's chunks in order", want_chunks.len(), t.ids, list.len()));
         }
-        pos += n;
+        if !list.is_empty() {
+            s.add(xorb.hash(), list);
+        }
+        if files.len() != t.ids.len() {
+            return Some(format!("{name}: an aggregator holding the files {:?} returned {} file records", t.ids, files.len()));
+        }
+        for (fi, id) in files.into_iter().zip(t.ids.iter()) {
+            if resolved[*id].is_some() {
+                return Some(format!("{name}: file {id} was returned twice"));
+            }
+            resolved[*id] = Some(fi);
+        }
+        None
+    };
+    // the upload session's cut-or-merge policy
+    let absorb = |acc: &mut Option<Tracked>, mut t: Tracked, resolved: &mut Vec<Option<MDBFileInfo>>, cov: &mut Coverage| -> Option<String> {
+        let Some(a) = acc.as_mut() else {
+            *acc = Some(t);
+            return None;
+        };
+        if a.agg.num_bytes() + t.agg.num_bytes() > *MAX_XORB_BYTES || a.agg.num_chunks() + t.agg.num_chunks() > *MAX_XORB_CHUNKS {
+            if a.agg.num_bytes() > t.agg.num_bytes() {
+                std::mem::swap(a, &mut t);
+            }
+            return finalize(t, resolved);
+        }
+        let want: Vec<MerkleHash> = a.agg.chunks.iter().chain(t.agg.chunks.iter()).map(|c| c.hash).collect();
+        let (wb, wf) = (a.agg.num_bytes() + t.agg.num_bytes(), a.agg.pending_file_info.len() + t.agg.pending_file_info.len());
+        a.ids.extend(t.ids.iter().copied());
+        let other = t.agg;
+        if let Err(e) = catch_unwind(AssertUnwindSafe(|| a.agg.merge_in(other))) {
+            return Some(format!("{name}: DataAggregator::merge_in panicked: {}", panic_msg(e)));
+        }
+        cov.merges += 1;
+        let got: Vec<MerkleHash> = a.agg.chunks.iter().map(|c| c.hash).collect();
+        if got != want || a.agg.num_chunks() != want.len() || a.agg.num_bytes() != wb || a.agg.pending_file_info.len() != wf || a.agg.is_empty() != (want.is_empty() && wf == 0) {
+            return Some(format!(
+                "{name}: after merge_in the aggregator reports {} chunks / {} bytes / {} files / is_empty {} but the two parts hold {} chunks / {wb} bytes / {wf} files",
+                a.agg.num_chunks(), a.agg.num_bytes(), a.agg.pending_file_info.len(), a.agg.is_empty(), want.len()
+            ));
+        }
+        None
+    };
+
+    for (id, file) in sc.files.iter().enumerate() {
+        let registered_before = store.lock().unwrap().registered.len();
+        let mut d = FileDeduper::new(Mock { store: store.clone(), outstanding: 0, restart: sc.restart });
+        let mut pos = 0;
+        let mut k = 0;
+        while pos < file.len() {
+            let n = sc.blocks[k % sc.blocks.len()].min(file.len() - pos);
+            k += 1;
+            match catch_unwind(AssertUnwindSafe(|| rt.block_on(d.process_chunks(&file[pos..pos + n])))) {
+                Err(e) => return Some(format!("{name}: process_chunks panicked on file {id}, chunks [{pos}, {}): {}", pos + n, panic_msg(e))),
+                Ok(Err(e)) => return Some(format!("{name}: process_chunks failed on file {id}, chunks [{pos}, {}): {e}", pos + n)),
+                Ok(Ok(m)) => {
+                    let bytes: usize = file[pos..pos + n].iter().map(|c| c.data.len()).sum();
+                    if m.total_chunks != n || m.total_bytes != bytes {
+                        return Some(format!("{name}: process_chunks on file {id}, chunks [{pos}, {}) = {bytes} bytes reports total_chunks {} / total_bytes {}", pos + n, m.total_chunks, m.total_bytes));
+                    }
+                },
+            }
+            pos += n;
+        }
+        if file.is_empty() && sc.blocks.contains(&0) {
+            if let Err(e) = catch_unwind(AssertUnwindSafe(|| rt.block_on(d.process_chunks(&[])).unwrap())) {
+                return Some(format!("{name}: process_chunks(&[]) panicked: {}", panic_msg(e)));
+            }
+        }
+        let (h, agg, m, new_xorbs) = match catch_unwind(AssertUnwindSafe(|| d.finalize(sc.salt, ext.clone()))) {
+            Ok(r) => r,
+            Err(e) => return Some(format!("{name}: FileDeduper::finalize panicked on file {id}: {}", panic_msg(e))),
+        };
+        file_hashes.push(h);
+        cov.global_hits += m.deduped_chunks_by_global_dedup;
+        cov.withheld += m.defrag_prevented_dedup_chunks;
+        let list: Vec<HL> = file.iter().map(|c| (c.hash, c.data.len())).collect();
+        let fed_bytes: usize = list.iter().map(|c| c.1).sum();
+        if !file.is_empty() {
+            // (the empty file's hash is the unsalted zero hash on HEAD - a recorded finding, not re-reported here)
+            let want = MerkleHash::from(*blake3::keyed_hash(&sc.salt, reference_root(&list).as_bytes()).as_bytes());
+            if h != want {
+                return Some(format!("{name}: file {id}: finalize returns the file hash {} but the salted aggregate of the fed (chunk hash, length) list is {}", h.hex(), want.hex()));
+            }
+        }
+        if m.total_bytes != fed_bytes || m.total_chunks != file.len() {
+            return Some(format!("{name}: file {id}: finalize reports total_bytes {} / total_chunks {} for {fed_bytes} bytes / {} chunks", m.total_bytes, m.total_chunks, file.len()));
+        }
+        {
+            let s = store.lock().unwrap();
+            if new_xorbs[..] != s.registered[registered_before..] {
+                return Some(format!("{name}: file {id}: finalize lists {} new xorbs but {} were registered with the store while it was processed (or in another order)", new_xorbs.len(), s.registered.len() - registered_before));
+            }
+        }
+        if agg.pending_file_info.len() != 1 || agg.is_empty() {
+            return Some(format!("{name}: file {id}: the remaining-data aggregator holds {} file records, is_empty() = {}", agg.pending_file_info.len(), agg.is_empty()));
+        }
+        let nb: usize = agg.chunks.iter().map(|c| c.data.len()).sum();
+        if agg.num_chunks() != agg.chunks.len() || agg.num_bytes() != nb || agg.num_chunks() > *MAX_XORB_CHUNKS || nb > *MAX_XORB_BYTES {
+            return Some(format!("{name}: file {id}: the remaining-data aggregator reports {} chunks / {} bytes, holds {} / {nb} (limits {} / {})", agg.num_chunks(), agg.num_bytes(), agg.chunks.len(), *MAX_XORB_CHUNKS, *MAX_XORB_BYTES));
+        }
+        {
+            let fi = &agg.pending_file_info[0].0;
+            if fi.file_size() != fed_bytes {
+                return Some(format!("{name}: file {id}: the segments add up to {} bytes, {fed_bytes} were fed", fi.file_size()));
+            }
+        }
+        let t = Tracked { agg, ids: vec![id] };
+        let r = match sc.merge {
+            Merge::Separate => finalize(t, &mut resolved),
+            Merge::Session | Merge::IntoFirst => absorb(&mut acc, t, &mut resolved, &mut *cov),
+            Merge::SessionReverse => {
+                waiting.push(t);
+                None
+            },
+        };
+        if r.is_some() {
+            return r;
+        }
     }
-    let (_h, agg, _m, _x) = d.finalize([7u8; 32], None);
-    let (xorb, files) = agg.finalize();
-    let mut s = store.lock().unwrap();
-    if !xorb.cas_info.chunks.is_empty() {
-        check_xorb(&xorb, &mut s.limit_violation);
-        let list: Vec<_> = xorb.cas_info.chunks.iter().map(|c| (c.chunk_hash, c.unpacked_segment_bytes as usize)).collect();
-        s.add(xorb.hash(), list);
+    while let Some(t) = waiting.pop() {
+        if let Some(w) = absorb(&mut acc, t, &mut resolved, &mut *cov) {
+            return Some(w);
+        }
     }
+    if let Some(t) = acc.take() {
+        if let Some(w) = finalize(t, &mut resolved) {
+            return Some(w);
+        }
+    }
+    let s = store.lock().unwrap();
+    cov.restarts += s.restarts;
+    cov.queries += s.queries;
     if let Some(v) = &s.limit_violation {
         return Some(format!("{name}: {v}"));
     }
-    let fi = &files[0];
-    let mut denoted: Vec<MerkleHash> = vec![];
-    for (i, seg) in fi.segments.iter().enumerate() {
-        if seg.cas_hash == MerkleHash::default() {
-            return Some(format!("{name}: segment {i} still carries the zero (unresolved) xorb hash"));
-        }
-        let Some(list) = s.xorbs.get(&seg.cas_hash) else {
-            return Some(format!("{name}: segment {i} references a xorb that was never handed to the store"));
+    for (id, file) in sc.files.iter().enumerate() {
+        let Some(fi) = &resolved[id] else {
+            return Some(format!("{name}: no file record came back for file {id}"));
         };
-        let (a, b) = (seg.chunk_index_start as usize, seg.chunk_index_end as usize);
-        if a >= b || b > list.len() {
-            return Some(format!("{name}: segment {i} has chunk range [{a}, {b}) in a xorb of {} chunks", list.len()));
+        let what = format!("{name}: file {id}");
+        if fi.metadata.file_hash != file_hashes[id] {
+            return Some(format!("{what}: the record carries the file hash {}, finalize returned {}", fi.metadata.file_hash.hex(), file_hashes[id].hex()));
         }
-        let bytes: usize = list[a..b].iter().map(|c| c.1).sum();
-        if bytes != seg.unpacked_segment_bytes as usize {
-            return Some(format!("{name}: segment {i} records {} bytes but its chunks hold {bytes}", seg.unpacked_segment_bytes));
+        if fi.metadata.num_entries as usize != fi.segments.len() || fi.verification.len() != fi.segments.len() || !fi.contains_verification() {
+            return Some(format!("{what}: header says {} entries (verification flag {}), the record has {} segments and {} verification entries", fi.metadata.num_entries, fi.contains_verification(), fi.segments.len(), fi.verification.len()));
         }
-        denoted.extend(list[a..b].iter().map(|c| c.0));
-    }
-    let fed: Vec<MerkleHash> = file.iter().map(|c| c.hash).collect();
-    if denoted != fed {
-        let i = denoted.iter().zip(fed.iter()).position(|(a, b)| a != b).unwrap_or(denoted.len().min(fed.len()));
-        return Some(format!(
-            "{name}: the file's segments denote {} chunks, {} were fed; first difference at chunk {i} (file of {} chunks fed in blocks {:?})",
-            denoted.len(), fed.len(), file.len(), blocks
-        ));
+        if fi.contains_metadata_ext() != sc.ext || fi.metadata_ext != ext || fi.metadata.file_flags & 0x3fff_ffff != 0 {
+            return Some(format!("{what}: finalize was given metadata_ext {} but the record has flags {:#x} and metadata_ext {:?}", if sc.ext { "Some" } else { "None" }, fi.metadata.file_flags, fi.metadata_ext.as_ref().map(|m| m.sha256.hex())));
+        }
+        let mut denoted: Vec<MerkleHash> = vec![];
+        for (i, seg) in fi.segments.iter().enumerate() {
+            if seg.cas_hash == MerkleHash::default() {
+                return Some(format!("{what}: segment {i} still carries the zero (unresolved) xorb hash"));
+            }
+            let Some(list) = s.xorbs.get(&seg.cas_hash) else {
+                return Some(format!("{what}: segment {i} references a xorb that was never handed to the store"));
+            };
+            let (a, b) = (seg.chunk_index_start as usize, seg.chunk_index_end as usize);
+            if a >= b || b > list.len() {
+                return Some(format!("{what}: segment {i} has chunk range [{a}, {b}) in a xorb of {} chunks", list.len()));
+            }
+            let bytes: usize = list[a..b].iter().map(|c| c.1).sum();
+            if bytes != seg.unpacked_segment_bytes as usize {
+                return Some(format!("{what}: segment {i} records {} bytes but its chunks hold {bytes}", seg.unpacked_segment_bytes));
+            }
+            let mut cat: Vec<u8> = Vec::with_capacity(32 * (b - a));
+            for c in &list[a..b] {
+                cat.extend_from_slice(c.0.as_bytes());
+            }
+            let want = MerkleHash::from(*blake3::keyed_hash(&VERIFICATION_KEY, &cat).as_bytes());
+            if fi.verification[i].range_hash != want {
+                return Some(format!("{what}: verification entry {i} is {} but the keyed hash of the {} chunk hashes of segment {i} (chunks [{a}, {b})) is {}", fi.verification[i].range_hash.hex(), b - a, want.hex()));
+            }
+            denoted.extend(list[a..b].iter().map(|c| c.0));
+        }
+        let fed: Vec<MerkleHash> = file.iter().map(|c| c.hash).collect();
+        if denoted != fed {
+            let i = denoted.iter().zip(fed.iter()).position(|(a, b)| a != b).unwrap_or(denoted.len().min(fed.len()));
+            return Some(format!("{what}: the segments denote {} chunks, {} were fed; first difference at chunk {i}", denoted.len(), fed.len()));
+        }
     }
     None
 }
 
-fn main() {
+struct Gen {
+    tag: u64,
+}
+impl Gen {
+    fn fresh(&mut self, n: usize, len: usize) -> Vec<Chunk> {
+        (0..n).map(|_| { self.tag += 1; chunk(self.tag, len) }).collect()
+    }
+    /// a chunk whose hash is eligible for a global dedup query (word 3 of the hash divisible by 1024), found by search
+    fn eligible(&mut self, len: usize) -> Chunk {
+        loop {
+            self.tag += 1;
+            let c = chunk(self.tag, len);
+            if mdb_shard::hash_is_global_dedup_eligible(&c.hash) {
+                if c.hash[3] % 1024 != 0 {
+                    println!("infrastructure: hash_is_global_dedup_eligible is not `word 3 divisible by 1024` any more");
+                    std::process::exit(2);
+                }
+                return c;
+            }
+        }
+    }
+}
+
+fn child(idx: usize) -> i32 {
+    let (cfg_c, cfg_b) = CONFIGS[idx];
+    if cfg_c.map(|c| c != *MAX_XORB_CHUNKS).unwrap_or(*MAX_XORB_CHUNKS != 8192) || cfg_b.map(|b| b != *MAX_XORB_BYTES).unwrap_or(*MAX_XORB_BYTES != 64 << 20) {
+        println!("infrastructure: HF_XET_MAX_XORB_CHUNKS / HF_XET_MAX_XORB_BYTES = {cfg_c:?} / {cfg_b:?} were not picked up (values {}, {})", *MAX_XORB_CHUNKS, *MAX_XORB_BYTES);
+        return 2;
+    }
+    let default_config = idx == 0;
     let maxc = *MAX_XORB_CHUNKS;
-    let mut tag = 0u64;
-    let mut fresh = |n: usize, len: usize| -> Vec<Chunk> {
-        (0..n).map(|_| { tag += 1; chunk(tag, len) }).collect()
-    };
-    let mut cases: Vec<(String, Vec<Chunk>, Vec<Vec<Chunk>>)> = vec![];
+    let maxb = *MAX_XORB_BYTES;
+    let seed: u64 = std::env::var("VERIF_SEED").ok().and_then(|s| s.parse().ok()).unwrap_or(0);
+    let mut g = Gen { tag: (idx as u64) << 40 };
+    let mut cases: Vec<Scenario> = vec![];
     // 1. repeats inside the xorb under construction
-    let a = fresh(50, 64);
-    let mut f = a.clone(); f.extend(a[10..20].iter().cloned()); f.extend(fresh(5, 64)); f.extend(a[0..3].iter().cloned());
-    cases.push(("in-xorb repeats".into(), f, vec![]));
+    let a = g.fresh(50, 64);
+    let mut f = a.clone(); f.extend(a[10..20].iter().cloned()); f.extend(g.fresh(5, 64)); f.extend(a[0..3].iter().cloned());
+    cases.push(Scenario::simple("in-xorb repeats", f, vec![]));
     // 2. a repeat of chunks of the xorb that was cut earlier in the same file (low and high indices)
-    let a = fresh(maxc + 40, 16);
-    let mut f = a.clone(); f.extend(fresh(30, 16)); f.extend(a[4..12].iter().cloned()); f.extend(fresh(4, 16)); f.extend(a[maxc - 3..maxc + 5].iter().cloned());
-    cases.push(("repeat across a chunk-limit cut".into(), f, vec![]));
-    // 3. exactly at / one past the chunk limit, several xorbs of small chunks
-    cases.push(("exactly MAX_XORB_CHUNKS fresh chunks".into(), fresh(maxc, 16), vec![]));
-    cases.push(("MAX_XORB_CHUNKS + 1 fresh chunks".into(), fresh(maxc + 1, 16), vec![]));
-    cases.push(("3 x MAX_XORB_CHUNKS + 7 fresh chunks".into(), fresh(3 * maxc + 7, 16), vec![]));
-    // 4. byte limit: chunks of 1 MiB
-    cases.push(("byte-limit cuts".into(), fresh(*MAX_XORB_BYTES / (1 << 20) + 3, 1 << 20), vec![]));
+    let a = g.fresh(maxc + 40, 16);
+    let mut f = a.clone(); f.extend(g.fresh(30, 16)); f.extend(a[4..12].iter().cloned()); f.extend(g.fresh(4, 16)); f.extend(a[maxc.saturating_sub(3)..maxc + 5].iter().cloned());
+    cases.push(Scenario::simple("repeat across a chunk-limit cut", f, vec![]));
+    // 3. one below / exactly at / one past the chunk limit, several xorbs of small chunks
+    if maxc > 1 {
+        cases.push(Scenario::simple("MAX_XORB_CHUNKS - 1 fresh chunks", g.fresh(maxc - 1, 16), vec![]));
+    }
+    cases.push(Scenario::simple("exactly MAX_XORB_CHUNKS fresh chunks", g.fresh(maxc, 16), vec![]));
+    cases.push(Scenario::simple("MAX_XORB_CHUNKS + 1 fresh chunks", g.fresh(maxc + 1, 16), vec![]));
+    cases.push(Scenario::simple("3 x MAX_XORB_CHUNKS + 7 fresh chunks", g.fresh(3 * maxc + 7, 16), vec![]));
+    // 4. byte limit: chunks of 1 MiB (default) / of MAX_XORB_BYTES / 8 bytes
+    let big = if default_config { 1 << 20 } else { (maxb / 8).min(1 << 16) };
+    if maxb / big + 3 <= 4 * maxc + 70 {
+        cases.push(Scenario::simple("byte-limit cuts", g.fresh(maxb / big + 3, big), vec![]));
+    }
+    if !default_config {
+        // byte-limit boundary: k chunks summing to exactly MAX_XORB_BYTES, then one byte more in the last / an extra chunk
+        let k = maxc.min(4);
+        let each = maxb / k;
+        if each >= 16 && maxb <= 1 << 16 {
+            let rest = maxb - each * (k - 1);
+            for (what, last, extra) in [("exactly MAX_XORB_BYTES in MAX-chunk-count-or-4 chunks", rest, 0usize), ("MAX_XORB_BYTES + 1 bytes", rest + 1, 0), ("exactly MAX_XORB_BYTES then 8 more bytes", rest, 8), ("MAX_XORB_BYTES - 1 bytes then 8 more", rest - 1, 8)] {
+                let mut f = g.fresh(k - 1, each);
+                f.extend(g.fresh(1, last));
+                if extra > 0 {
+                    f.extend(g.fresh(1, extra));
+                }
+                f.extend(f[0..1].to_vec());
+                cases.push(Scenario::simple(&format!("byte-limit boundary: {what}, then a repeat of chunk 0"), f, vec![]));
+            }
+            // a single chunk of exactly MAX_XORB_BYTES, alone and between small chunks
+            let mut f = g.fresh(2, 16);
+            f.extend(g.fresh(1, maxb));
+            f.extend(g.fresh(2, 16));
+            cases.push(Scenario::simple("one chunk of exactly MAX_XORB_BYTES between small chunks", f, vec![]));
+            cases.push(Scenario::simple("one chunk of exactly MAX_XORB_BYTES", g.fresh(1, maxb), vec![]));
+        }
+    }
     // 5. remote runs interleaved with fresh data and partial matches running past a remote xorb's end
-    let r1 = fresh(6, 100); let r2 = fresh(3, 100);
-    let mut f = fresh(2, 100); f.extend(r1[2..6].iter().cloned()); f.extend(r2.iter().cloned()); f.extend(fresh(1, 100)); f.extend(r1[0..2].iter().cloned()); f.extend(r1[0..2].iter().cloned());
-    cases.push(("remote runs".into(), f, vec![r1, r2]));
+    let r1 = g.fresh(6, 100); let r2 = g.fresh(3, 100);
+    let mut f = g.fresh(2, 100); f.extend(r1[2..6].iter().cloned()); f.extend(r2.iter().cloned()); f.extend(g.fresh(1, 100)); f.extend(r1[0..2].iter().cloned()); f.extend(r1[0..2].iter().cloned());
+    cases.push(Scenario::simple("remote runs", f, vec![r1, r2]));
     // 6. fragmentation history: >= 128 ranges of [3 fresh][1 repeated chunk] make the fragmentation prevention refuse one-chunk
     //    matches, so repeated chunks are stored a second time; later the file replays pairs (P, Q) whose Q was stored twice
     for local in [true, false] {
-        let a = fresh(420, 48);
+        let a = g.fresh(420, 48);
         let mut f = if local { a.clone() } else { vec![] };
         for j in 0..200 {
-            f.extend(fresh(3, 48));
+            f.extend(g.fresh(3, 48));
             f.push(a[2 * j + 1].clone());
         }
         for j in 120..200 {
             f.push(a[2 * j].clone());
             f.push(a[2 * j + 1].clone());
-            f.extend(fresh(1, 48));
+            f.extend(g.fresh(1, 48));
         }
         for j in 0..5 {
             f.extend(a[400 + j..410].iter().cloned());
         }
-        cases.push((format!("fragmented history, repeats {}", if local { "inside the pending xorb" } else { "of a stored xorb" }), f, if local { vec![] } else { vec![a] }));
+        cases.push(Scenario::simple(&format!("fragmented history, repeats {}", if local { "inside the pending xorb" } else { "of a stored xorb" }), f, if local { vec![] } else { vec![a] }));
     }
     // 7. near-duplicate regions inside ONE pending xorb: a run R = A B C D E F G H stored as new data, later the same run with
     //    one or two inner chunks replaced (A X C D .. / A B X D .. / A X Y D ..), at several offsets of the first occurrence in
     //    the xorb; chunk lengths all different, so a run that swallows the replaced chunk also shows in the segment byte counts
     for offset in [0usize, 3, 17] {
-        let mut f = fresh(offset, 40);
-        let r: Vec<Chunk> = (0..8).map(|k| fresh(1, 50 + 7 * k).pop().unwrap()).collect();
+        let mut f = g.fresh(offset, 40);
+        let r: Vec<Chunk> = (0..8).map(|k| g.fresh(1, 50 + 7 * k).pop().unwrap()).collect();
         f.extend(r.iter().cloned());
         let mut shapes = vec![];
         for replaced in [vec![1usize], vec![2], vec![1, 2], vec![6], vec![3, 5], vec![1, 2, 3, 4, 5, 6]] {
-            f.extend(fresh(2, 33));
+            f.extend(g.fresh(2, 33));
             let mut v = r.clone();
             for &k in &replaced {
-                v[k] = fresh(1, 90 + 11 * k).pop().unwrap();
+                v[k] = g.fresh(1, 90 + 11 * k).pop().unwrap();
             }
             f.extend(v);
             shapes.push(format!("{replaced:?}"));
         }
-        f.extend(fresh(1, 20));
-        cases.push((format!("run of 8 chunks stored at chunk {offset} of the pending xorb, then repeated with the chunks at run positions {} replaced by new ones (2 fresh chunks between the repeats)", shapes.join(", ")), f, vec![]));
+        f.extend(g.fresh(1, 20));
+        cases.push(Scenario::simple(&format!("run of 8 chunks stored at chunk {offset} of the pending xorb, then repeated with the chunks at run positions {} replaced by new ones (2 fresh chunks between the repeats)", shapes.join(", ")), f, vec![]));
         // each shape alone, directly after the run
         for replaced in [vec![1usize], vec![2], vec![1, 2]] {
-            let mut f = fresh(offset, 40);
+            let mut f = g.fresh(offset, 40);
             f.extend(r.iter().cloned());
             let mut v = r[..5].to_vec();
             for &k in &replaced {
-                v[k] = fresh(1, 90 + 11 * k).pop().unwrap();
+                v[k] = g.fresh(1, 90 + 11 * k).pop().unwrap();
             }
             f.extend(v);
-            cases.push((format!("run A B C D E F G H at chunk {offset}, immediately followed by A..E with positions {replaced:?} replaced"), f, vec![]));
+            cases.push(Scenario::simple(&format!("run A B C D E F G H at chunk {offset}, immediately followed by A..E with positions {replaced:?} replaced"), f, vec![]));
         }
     }
-    for (name, file, remote) in &cases {
+    let mut cov = Coverage::default();
+    for sc in &cases {
         for blocks in [vec![usize::MAX], vec![1usize], vec![7, 1000]] {
-            let r = std::panic::catch_unwind(std::panic::AssertUnwindSafe(|| run(name, file, &blocks, remote))).unwrap_or_else(|e| {
-                let msg = e.downcast_ref::<String>().cloned().or_else(|| e.downcast_ref::<&str>().map(|s| s.to_string())).unwrap_or_default();
-                Some(format!("{name}: finalize panicked on a file of {} chunks fed in blocks {:?}: {msg}", file.len(), blocks))
-            });
-            if let Some(w) = r {
-                println!("WITNESS {w}");
-                std::process::exit(1);
+            let mut sc = sc.clone();
+            sc.blocks = blocks;
+            if let Some(w) = run(&sc, &mut cov) {
+                println!("WITNESS [MAX_XORB_CHUNKS={maxc}, MAX_XORB_BYTES={maxb}] {w}");
+                return 1;
             }
         }
+    }
+
+    // ------------------------------------------------------------------------------------------------------------------------------
+    // 8. directed scenarios for the restart-the-block path, answer shapes, merging rules, multi-file aggregation
+    // ------------------------------------------------------------------------------------------------------------------------------
+    let mut directed: Vec<Scenario> = vec![];
+    let base = Scenario::simple("", vec![], vec![]);
+    let salts: [[u8; 32]; 3] = [[0u8; 32], [7u8; 32], { let mut s = [0u8; 32]; s[31] = 1; s }];
+    // 8a. global dedup: chunk 0 unknown (always eligible), hash-eligible chunks at position 0 / 1 / later, close together and far
+    //     apart; the shard that arrives on the restart holds the registered chunk and its successors / holds unrelated chunks /
+    //     nothing arrives (restart with the registered chunk still unknown); the arriving run overlaps a run known in pass 1
+    for arrive in 0..4usize {
+        let known = g.fresh(6, 70);
+        let e: Vec<Chunk> = (0..4).map(|k| g.eligible(60 + k)).collect();
+        let mut f = vec![];
+        if arrive % 2 == 0 {
+            f.push(e[0].clone()); // eligible by hash AND first chunk
+        } else {
+            f.extend(g.fresh(1, 55)); // first chunk, not eligible by hash
+        }
+        f.extend(g.fresh(2, 61));
+        f.push(e[1].clone()); // position 3
+        f.push(e[2].clone()); // directly after an eligible chunk
+        f.extend(known[1..4].iter().cloned()); // known in pass 1
+        f.extend(g.fresh(9, 62));
+        f.push(e[3].clone());
+        f.extend(g.fresh(2, 63));
+        f.extend(known[0..2].iter().cloned());
+        let late: Vec<Vec<Chunk>> = match arrive {
+            0 => vec![{ let mut l = g.fresh(2, 40); l.extend(f[0..3].iter().cloned()); l }, f[3..9].to_vec(), { let mut l = f[17..19].to_vec(); l.extend(g.fresh(1, 40)); l }],
+            1 => vec![f[0..5].to_vec(), f[4..7].to_vec()],
+            2 => vec![g.fresh(3, 40)],
+            _ => vec![],
+        };
+        for blocks in [vec![usize::MAX], vec![1usize], vec![4, 0, 3], vec![5]] {
+            for (caps, prefer_last) in [(vec![], false), (vec![1], false), (vec![2, usize::MAX], true)] {
+                let mut sc = base.clone();
+                sc.name = format!("global dedup: file = [{}first chunk][2 new][2 hash-eligible chunks][3 chunks of a stored xorb][9 new][hash-eligible chunk][2 new][2 stored chunks]; arriving shards variant {arrive} (0: three shards holding chunks 0-2 / 3-8 / 17-18, 1: chunks 0-4 and 4-6, 2: unrelated chunks, 3: none)", if arrive % 2 == 0 { "hash-eligible " } else { "" });
+                sc.files = vec![f.clone()];
+                sc.remote = vec![known.clone()];
+                sc.late = late.clone();
+                sc.restart = true;
+                sc.blocks = blocks.clone();
+                sc.caps = caps;
+                sc.prefer_last = prefer_last;
+                sc.salt = salts[arrive % 3];
+                sc.ext = arrive % 2 == 1;
+                directed.push(sc);
+            }
+        }
+    }
+    // 8b. answer shapes and merging: contiguous hits on one xorb answered one chunk at a time; hits ending at the same index; remote
+    //     run directly followed by a pending-xorb run and vice versa; hit - new - hit; a stored run continuing across block ends
+    {
+        let r = g.fresh(10, 80);
+        let q = g.fresh(4, 81);
+        let n = g.fresh(6, 82);
+        let mut f: Vec<Chunk> = vec![];
+        f.extend(n[0..3].iter().cloned()); // new: pending chunks 0..3
+        f.extend(r[0..10].iter().cloned()); // the whole stored xorb
+        f.extend(r[7..10].iter().cloned()); // ends at the same index as the previous segment
+        f.extend(r[9..10].iter().cloned());
+        f.extend(n[1..3].iter().cloned()); // pending-xorb run right after a remote run
+        f.extend(q[0..2].iter().cloned()); // remote right after local
+        f.extend(n[3..4].iter().cloned()); // new
+        f.extend(q[2..4].iter().cloned()); // hit - new - hit on the same xorb, second hit NOT contiguous with the first in the file
+        f.extend(n[0..1].iter().cloned());
+        f.extend(n[3..4].iter().cloned()); // two pending chunks that are not adjacent in the xorb
+        f.extend(q[0..4].iter().cloned());
+        f.extend(n[4..6].iter().cloned());
+        f.extend(n[4..6].iter().cloned()); // a repeat of the chunks just added
+        for blocks in [vec![usize::MAX], vec![1usize], vec![2], vec![3, 0, 5], vec![13, 1]] {
+            for (caps, prefer_last) in [(vec![], false), (vec![1], false), (vec![1, usize::MAX], false), (vec![3, 1], true)] {
+                for merge in [Merge::Separate, Merge::Session] {
+                    let mut sc = base.clone();
+                    sc.name = "answer shapes: [3 new][stored xorb R 0..10][R 7..10][R 9][pending 1..3][Q 0..2][new][Q 2..4][pending 0][pending 3][Q 0..4][2 new][the same 2]".into();
+                    sc.files = vec![f.clone()];
+                    sc.remote = vec![r.clone(), q.clone()];
+                    sc.blocks = blocks.clone();
+                    sc.caps = caps.clone();
+                    sc.prefer_last = prefer_last;
+                    sc.merge = merge;
+                    sc.ext = blocks.len() == 1;
+                    directed.push(sc);
+                }
+            }
+        }
+    }
+    // 8c. several files in one session: fully deduplicated files (no new chunk), empty files, files with pending-xorb
+    //     self-references, files that cut xorbs; merged in every order into an empty / non-empty aggregator
+    {
+        let r = g.fresh(12, 90);
+        let fully: Vec<Chunk> = r[2..9].to_vec();
+        let fully2: Vec<Chunk> = { let mut v = r[0..3].to_vec(); v.extend(r[0..3].iter().cloned()); v };
+        let a = g.fresh(9, 91);
+        let selfref: Vec<Chunk> = { let mut v = a.clone(); v.extend(a[2..6].iter().cloned()); v.extend(g.fresh(1, 92)); v.extend(a[7..9].iter().cloned()); v };
+        let b = g.fresh(5, 93);
+        let mixed: Vec<Chunk> = { let mut v = r[5..8].to_vec(); v.extend(b.iter().cloned()); v.extend(r[0..2].iter().cloned()); v.extend(b[1..4].iter().cloned()); v };
+        let one = g.fresh(1, 94);
+        let cutting: Vec<Chunk> = if default_config { g.fresh(30, 95) } else { let mut v = g.fresh(2 * maxc + 1, 60); let w = v[maxc..maxc + 1].to_vec(); v.extend(w); v };
+        let sets: Vec<(&str, Vec<Vec<Chunk>>)> = vec![
+            ("fully deduplicated file alone", vec![fully.clone()]),
+            ("empty file alone", vec![vec![]]),
+            ("fully deduplicated, then a file with pending-xorb self references", vec![fully.clone(), selfref.clone()]),
+            ("self-referencing file, then a fully deduplicated one, then a mixed one", vec![selfref.clone(), fully.clone(), mixed.clone()]),
+            ("two fully deduplicated files and an empty one", vec![fully.clone(), vec![], fully2.clone()]),
+            ("mixed, self-referencing, one-chunk, the self-referencing file again, a xorb-cutting file, mixed again", vec![mixed.clone(), selfref.clone(), one.clone(), selfref.clone(), cutting.clone(), mixed.clone()]),
+            ("empty, one-chunk, empty, mixed", vec![vec![], one.clone(), vec![], mixed.clone()]),
+        ];
+        for (what, files) in sets {
+            for merge in [Merge::Separate, Merge::Session, Merge::SessionReverse, Merge::IntoFirst] {
+                for (blocks, caps) in [(vec![usize::MAX], vec![]), (vec![1usize], vec![1]), (vec![0, 4], vec![])] {
+                    let mut sc = base.clone();
+                    sc.name = format!("several files ({what})");
+                    sc.files = files.clone();
+                    sc.remote = vec![r.clone()];
+                    sc.merge = merge;
+                    sc.blocks = blocks;
+                    sc.caps = caps;
+                    sc.ext = merge != Merge::Session;
+                    sc.salt = salts[(merge as usize) % 3];
+                    directed.push(sc);
+                }
+            }
+        }
+    }
+    for sc in &directed {
+        if let Some(w) = run(sc, &mut cov) {
+            println!("WITNESS [MAX_XORB_CHUNKS={maxc}, MAX_XORB_BYTES={maxb}] {w}");
+            return 1;
+        }
+    }
+    // the salt must matter: same chunk list, the three salts give three file hashes (checked through the independent value above;
+    // here only that the independent values differ, i.e. the scenarios really distinguish the salts)
+    {
+        let l = [(compute_data_hash(b"x"), 5usize)];
+        let hs: Vec<_> = salts.iter().map(|s| *blake3::keyed_hash(s, reference_root(&l).as_bytes()).as_bytes()).collect();
+        if hs[0] == hs[1] || hs[1] == hs[2] || hs[0] == hs[2] {
+            println!("infrastructure: the reference salted hashes do not differ");
+            return 2;
+        }
+    }
+
+    // ------------------------------------------------------------------------------------------------------------------------------
+    // 9. random sessions (VERIF_SEED)
+    // ------------------------------------------------------------------------------------------------------------------------------
+    let mut rng = StdRng::seed_from_u64(seed.wrapping_mul(1000).wrapping_add(idx as u64));
+    let elig: Vec<Chunk> = (0..12).map(|k| g.eligible(40 + k)).collect();
+    let n_random = if default_config { 1500 } else { 1000 };
+    for round in 0..n_random {
+        let lim = if maxb < 8192 { maxb / 12 } else { 120 };
+        let remote: Vec<Vec<Chunk>> = (0..rng.random_range(1..4)).map(|_| { let n = rng.random_range(1..13); let l = rng.random_range(16..lim.max(17)); g.fresh(n, l) }).collect();
+        let mut late: Vec<Vec<Chunk>> = vec![];
+        let mut files: Vec<Vec<Chunk>> = vec![];
+        let mut desc = String::new();
+        let nfiles = rng.random_range(1..5);
+        for _ in 0..nfiles {
+            let mut f: Vec<Chunk> = vec![];
+            let ops = if rng.random_range(0..12) == 0 { 0 } else { rng.random_range(1..14) };
+            desc.push_str(" |");
+            for _ in 0..ops {
+                match rng.random_range(0..8) {
+                    0 | 1 => {
+                        let n = rng.random_range(1..7);
+                        f.extend(g.fresh(n, rng.random_range(16..lim.max(17))));
+                        desc.push_str(&format!(" new{n}"));
+                    },
+                    2 | 3 => {
+                        let x = rng.random_range(0..remote.len());
+                        let a = rng.random_range(0..remote[x].len());
+                        let b = rng.random_range(a + 1..=remote[x].len());
+                        f.extend(remote[x][a..b].iter().cloned());
+                        desc.push_str(&format!(" R{x}[{a}..{b}]"));
+                    },
+                    4 | 5 if !f.is_empty() => {
+                        let a = rng.random_range(0..f.len());
+                        let b = rng.random_range(a + 1..=f.len().min(a + 8));
+                        let v = f[a..b].to_vec();
+                        f.extend(v);
+                        desc.push_str(&format!(" self[{a}..{b}]"));
+                    },
+                    6 => {
+                        f.push(elig[rng.random_range(0..elig.len())].clone());
+                        desc.push_str(" E");
+                    },
+                    7 if !files.is_empty() => {
+                        // content of an earlier file of the session
+                        let x = rng.random_range(0..files.len());
+                        if !files[x].is_empty() {
+                            let a = rng.random_range(0..files[x].len());
+                            let b = rng.random_range(a + 1..=files[x].len().min(a + 8));
+                            f.extend(files[x][a..b].iter().cloned());
+                            desc.push_str(&format!(" file{x}[{a}..{b}]"));
+                        }
+                    },
+                    _ => {
+                        f.extend(g.fresh(1, rng.random_range(16..lim.max(17))));
+                        desc.push_str(" new1");
+                    },
+                }
+            }
+            // some arriving shards hold a stretch of this file (what another client uploaded), some hold unrelated data
+            if !f.is_empty() && rng.random_range(0..2) == 0 {
+                let a = rng.random_range(0..f.len());
+                let b = rng.random_range(a + 1..=f.len().min(a + 6));
+                let mut l = g.fresh(rng.random_range(0..3), 30);
+                l.extend(f[a..b].iter().cloned());
+                l.truncate(maxc.max(1) * 4);
+                late.push(l);
+            } else if rng.random_range(0..3) == 0 {
+                late.push(g.fresh(2, 30));
+            }
+            files.push(f);
+        }
+        let mut sc = base.clone();
+        sc.name = format!("random session #{round} (VERIF_SEED={seed}) files:{desc} ; R = stored xorbs of {:?} chunks, E = hash-eligible chunk, arriving xorbs of {:?} chunks", remote.iter().map(|r| r.len()).collect::<Vec<_>>(), late.iter().map(|r| r.len()).collect::<Vec<_>>());
+        sc.files = files;
+        sc.remote = remote;
+        sc.late = late;
+        sc.restart = rng.random_range(0..3) != 0;
+        sc.blocks = match rng.random_range(0..6) {
+            0 => vec![usize::MAX],
+            1 => vec![1],
+            2 => vec![7, 1000],
+            3 => vec![0, 2, 1],
+            _ => (0..rng.random_range(1..4)).map(|_| rng.random_range(1..9)).collect(),
+        };
+        sc.caps = match rng.random_range(0..4) { 0 => vec![1], 1 => vec![usize::MAX, 2], 2 => vec![3, 1, usize::MAX], _ => vec![] };
+        sc.prefer_last = rng.random_range(0..2) == 0;
+        sc.salt = salts[rng.random_range(0..3)];
+        sc.ext = rng.random_range(0..2) == 0;
+        sc.merge = [Merge::Separate, Merge::Session, Merge::SessionReverse, Merge::IntoFirst][rng.random_range(0..4)];
+        if let Some(w) = run(&sc, &mut cov) {
+            println!("WITNESS [MAX_XORB_CHUNKS={maxc}, MAX_XORB_BYTES={maxb}] {w}");
+            return 1;
+        }
+    }
+    if std::env::var("VERIF_STATS").is_ok() {
+        println!("STATS config {:?}: {} scenarios + {} directed + {n_random} random; {} global dedup queries, {} restarts, {} chunks deduplicated on the second pass, {} withheld by defrag prevention, {} merges", CONFIGS[idx], 3 * cases.len(), directed.len(), cov.queries, cov.restarts, cov.global_hits, cov.withheld, cov.merges);
+    }
+    if cov.restarts == 0 || cov.queries == 0 || cov.merges == 0 {
+        println!("infrastructure: the scenarios never reached the restart path / merge_in ({} global dedup queries, {} restarts, {} merges)", cov.queries, cov.restarts, cov.merges);
+        return 2;
+    }
+
+    // opt-in: one chunk longer than MAX_XORB_BYTES (outside the stated domain: the chunker never produces it unless the byte limit
+    // is configured below the maximum chunk size)
+    if std::env::var("VERIF_C01_OVERSIZE_CHUNK").is_ok() && maxb <= 1 << 16 {
+        let mut f = g.fresh(2, 16);
+        f.extend(g.fresh(1, maxb + 1));
+        f.extend(g.fresh(1, 16));
+        for lead in [0usize, 2] {
+            let mut sc = base.clone();
+            sc.name = format!("{lead} small chunks, then one chunk of MAX_XORB_BYTES + 1 bytes, then a small one");
+            sc.files = vec![f[2 - lead..].to_vec()];
+            if let Some(w) = run(&sc, &mut cov) {
+                println!("WITNESS [MAX_XORB_CHUNKS={maxc}, MAX_XORB_BYTES={maxb}] {w}");
+                return 1;
+            }
+        }
+    }
+    0
+}
+
+fn main() {
+    let args: Vec<String> = std::env::args().collect();
+    if args.len() == 3 && args[1] == "--child" {
+        let idx: usize = args[2].parse().unwrap();
+        let rc = catch_unwind(|| child(idx)).unwrap_or_else(|e| {
+            println!("WITNESS [configuration {:?}] the search itself panicked outside a guarded call: {}", CONFIGS[idx], panic_msg(e));
+            1
+        });
+        std::process::exit(rc);
+    }
+    let exe = std::env::current_exe().unwrap();
+    let handles: Vec<_> = (0..CONFIGS.len())
+        .map(|i| {
+            let mut cmd = std::process::Command::new(&exe);
+            cmd.arg("--child").arg(i.to_string()).stdout(std::process::Stdio::piped()).stderr(std::process::Stdio::piped());
+            cmd.env_remove("HF_XET_MAX_XORB_CHUNKS").env_remove("HF_XET_MAX_XORB_BYTES");
+            if let Some(c) = CONFIGS[i].0 {
+                cmd.env("HF_XET_MAX_XORB_CHUNKS", c.to_string());
+            }
+            if let Some(b) = CONFIGS[i].1 {
+                cmd.env("HF_XET_MAX_XORB_BYTES", b.to_string());
+            }
+            let c = cmd.spawn().expect("spawn child");
+            std::thread::spawn(move || c.wait_with_output())
+        })
+        .collect();
+    let mut witness: Option<String> = None;
+    let mut trouble: Option<String> = None;
+    for (i, h) in handles.into_iter().enumerate() {
+        let out = h.join().unwrap().expect("child output");
+        let stdout = String::from_utf8_lossy(&out.stdout).to_string();
+        if std::env::var("VERIF_STATS").is_ok() {
+            stdout.lines().filter(|l| l.starts_with("STATS")).for_each(|l| println!("{l}"));
+        }
+        match out.status.code() {
+            Some(0) => {},
+            Some(1) => witness = witness.or(stdout.lines().find(|l| l.starts_with("WITNESS")).map(|s| s.to_string())),
+            Some(2) => trouble = trouble.or(Some(stdout)),
+            _ => {
+                let err = String::from_utf8_lossy(&out.stderr);
+                let tail: Vec<&str> = err.lines().rev().take(4).collect();
+                witness = witness.or(Some(format!("WITNESS configuration {:?} (MAX_XORB_CHUNKS, MAX_XORB_BYTES; None = default): the process died ({:?}): {}", CONFIGS[i], out.status, tail.into_iter().rev().collect::<Vec<_>>().join(" | "))));
+            },
+        }
+    }
+    if let Some(w) = witness {
+        println!("{w}");
+        std::process::exit(1);
+    }
+    if let Some(t) = trouble {
+        eprintln!("{t}");
+        std::process::exit(2);
     }
     println!("no violation found");
 }
